@@ -289,7 +289,7 @@ fn judge(l: &mut Local, cx: &Ctx, src: &[usize], vals: &[f64], out: &[(usize, f6
 
 fn gen_values(rng: &mut Rng, cx: &Ctx, d: usize, range: f64) -> (Vec<f64>, bool) {
     // returns values already representable in the message type and whether they are in the working range
-    let class = rng.below(9);
+    let class = rng.below(10);
     let mut in_range = true;
     let v: Vec<f64> = if cx.i8t {
         match class {
@@ -324,6 +324,16 @@ fn gen_values(rng: &mut Rng, cx: &Ctx, d: usize, range: f64) -> (Vec<f64>, bool)
             }
             5 => (0..d).map(|i| rng.uniform(0.5, range) * if i % 2 == 0 { 1.0 } else { -1.0 }).collect(),
             6 => (0..d).map(|_| rng.uniform(-4.0, 4.0)).collect(),
+            // near-erasures: one to three inputs just above zero (1e-20 .. 1e-7, where intermediate results of an
+            // incremental box-plus round to +-tiny or cancel) among ordinary ones, at random positions
+            9 => {
+                let mut v: Vec<f64> = (0..d).map(|_| rng.uniform(0.05, 3.0) * rng.sign()).collect();
+                for _ in 0..rng.range(1, 3.min(d)) {
+                    let i = rng.below(d);
+                    v[i] = rng.logu(-20.0, -7.0) * rng.sign();
+                }
+                v
+            }
             7 => {
                 // beyond the working range: structural checks only for phi/tanh
                 in_range = false;
